@@ -431,9 +431,21 @@ fn sym_block_t<T: RealNumber>(c: &mut Case) {
 }
 
 fn sym_rankdef_t<T: RealNumber>(c: &mut Case) {
-    let n = size(&mut c.rng, NMAX);
-    let k = c.rng.below(5);
+    let mut n = size(&mut c.rng, NMAX);
+    let k = c.rng.below(6);
+    if k == 5 {
+        n = c.rng.us(1, NMAX); // all orders equally likely for the exact rank-one / rank-two inputs
+    }
     let (a, kind): (Mat, &str) = match k {
+        5 => {
+            // u·uᵀ (± w·wᵀ) with small integers: after one or two Householder steps the remaining block is
+            // pure rounding noise (or exactly zero)
+            let u: Vec<f64> = (0..n).map(|_| c.rng.int(-3, 3) as f64).collect();
+            let two = c.rng.bool(0.3);
+            let sgn = if c.rng.bool(0.5) { 1.0 } else { -1.0 };
+            let w: Vec<f64> = (0..n).map(|_| if two { c.rng.int(-2, 2) as f64 } else { 0.0 }).collect();
+            (Mat::from_fn(n, n, |i, j| u[i] * u[j] + sgn * w[i] * w[j]), "rankdef:integer-rank-one-or-two")
+        }
         0 => {
             // B·Bᵀ with small integers: exactly representable, rank r < n (for n >= 2)
             let r = if n >= 2 { c.rng.us(1, n - 1) } else { 1 };
